@@ -232,7 +232,7 @@ def _task_sweep(args):
         sub = {s.name: s for s in mod.subchecks(tier)}[sub_name]
         for case in sub.expand(chunk):
             if _STOP is not None and _STOP.is_set():
-                out["truncated"] = True
+                out["aborted"] = True
                 break
             case = norm(case)
             rec.begin(case)
@@ -482,7 +482,7 @@ def run_property(prop_id, tier="quick", seed=1, only_sub=None, scale=1.0, procs=
     for k in per_sub:
         per_sub[k]["distinct_nontrivial"] = len(per_sub[k]["distinct_nontrivial"])
 
-    sweeps_done = all(not r["truncated"] for r in results if r["kind"] == "sweep")
+    sweeps_done = all(not r.get("aborted") for r in results if r["kind"] == "sweep")
     exhaustive_subs = [s.name for s in subs if s.exhaustive and s.chunks is not None]
     wall = time.time() - t0
     if not samples:
